@@ -236,7 +236,10 @@ def r4_offsets(ck, F, R="C02-R4"):
         for site, st in b.sites():
             if site.i is not None and st["s"] == "assign" and st["rv"]["rv"] == "bin" and st["rv"]["op"] == "Eq":
                 e = b._expr_of_def((site, "assign", st["rv"]))
-                if is_self_field(e.a[0], "index_key_counter") and is_call(e.a[1], "NonZero::<T>::get") and is_self_field(e.a[1].strip().a[0], "index_key_interval"):
+                x, y = e.a
+                if not is_self_field(x, "index_key_counter"):
+                    x, y = y, x
+                if is_self_field(x, "index_key_counter") and is_call(y, "NonZero::<T>::get") and is_self_field(y.strip().a[0], "index_key_interval"):
                     guard = site
         okg = False
         if guard is not None:
